@@ -23,3 +23,59 @@ package fasthttp
 //@     invariant[start]  segmentStart == 0 || path[segmentStart-1] == '/'
 //@     invariant[inside] forall j in [segmentStart,i): path[j] != '/'
 //@     invariant[none-before] forall s in [0,segmentStart): !dotdotAt(path, s)
+
+// pathToFilePath: the file path handed to the filesystem is the root, a separator, and the request path --
+// never the root glued to the first bytes of the path (which would name a sibling of the root).
+//@ func fsHandler.pathToFilePath results r
+//@   property C23
+//@   requires[trailing-slash-flag] hasTrailingSlash ==> len(path) > 0 && path[len(path)-1] == '/'
+//@   ensures[inside-root] h.root != "" && h.root != "." && len(r) > len(h.root) ==> hasPrefix(r, h.root) && r[len(h.root)] == '/'
+//@   ensures[root-itself] h.root != "" && h.root != "." ==> len(r) >= len(h.root) && hasPrefix(r, h.root)
+
+// handleRequest: no file is looked up, opened or created for a path that contains a NUL byte or, after a
+// path rewriter ran, a ".." segment; the file path always comes from pathToFilePath applied to that checked path.
+//@ func fsHandler.handleRequest
+//@   property C23
+//@   mode skeleton
+//@   stable h.pathRewrite
+//@   ghost nulIdx int = 0
+//@   ghost nulChecked bool = false
+//@   ghost ddChecked bool = false
+//@   ghost ddFound bool = false
+//@   ghost fpMade bool = false
+//@   ghost normalized bool = false
+//@   on call field:pathRewrite -> p:
+//@     effect normalized = false
+//@   on call RequestCtx.Path -> p:
+//@     effect normalized = true
+//@   on call bytes.IndexByte(b, c) -> n:
+//@     nohavoc
+//@     requires[nul-check-on-the-served-path] sameSlice(b, path) && c == 0
+//@     effect nulIdx = n; nulChecked = true
+//@   on call hasDotDotPathSegment(p) -> r:
+//@     nohavoc
+//@     requires[dotdot-check-on-the-served-path] sameSlice(p, path)
+//@     effect ddChecked = true; ddFound = r
+//@   on call inMemoryCacheManager.GetFileFromCache(_, k, p):
+//@     requires[checked-before-cache-lookup] sameSlice(p, path) && nulChecked && nulIdx < 0 && (normalized || (ddChecked && !ddFound))
+//@   on call cacheManager.GetFileFromCache(_, k, p):
+//@     requires[checked-before-cache-lookup] sameSlice(p, path) && nulChecked && nulIdx < 0 && (normalized || (ddChecked && !ddFound))
+//@   on call fsHandler.pathToFilePath(_, p, ts) -> fp:
+//@     requires[checked-before-file-path] sameSlice(p, path) && nulChecked && nulIdx < 0 && (normalized || (ddChecked && !ddFound))
+//@     requires[trailing-slash-flag] ts == hasTrailingSlash
+//@     effect fpMade = true
+//@   on call fsHandler.openFSFile(_, fp):
+//@     requires[file-path-from-root] fpMade && eq(fp, filePath)
+//@   on call fsHandler.openIndexFile(_, c, fp):
+//@     requires[file-path-from-root] fpMade && eq(fp, filePath)
+//@   end
+
+// The built-in rewriters return a piece of the (normalised) request path, never bytes from elsewhere.
+//@ func stripLeadingSlashes results r
+//@   property C23
+//@   pure
+//@   maypanic
+//@   noterm
+//@   ensures[suffix] rgn(r) == rgn(path) && off(r) >= off(path) && off(r) + len(r) <= off(path) + len(path)
+//@   loop 1:
+//@     invariant rgn(path) == rgn(old(path)) && off(path) >= off(old(path)) && off(path) + len(path) == off(old(path)) + len(old(path))
